@@ -33,6 +33,18 @@ CHECKS = {
          "(b) parser level: for every second / every one of 73 contexts and each token (4 tag shapes x ~140 names + 13 others) [thorough: + a second start/end tag over 24 names] + 3 probes, the abstract trees of etree(fullTree), dom, each with namespacing on and off, are equal (HTML namespace normalised), and the etree root-element form equals the html subtree of the full tree.",
     note="R7 readers (norm_et/norm_dom) trusted; primitive-call preconditions (fresh target for reparentChildren, no text after a removed element) are assumptions derived from the call sites; lxml not installed. " + NOTE_COMMON,
     design="§3 C04"),
+ "C11": dict(
+    technique="bounded symbolic execution (CrossHair/z3): TreeWalker.text on fully symbolic Unicode text; both walkers + the lint filter over symbolically shaped trees (parent vector, node kinds, names/namespaces, attribute sets by symbolic index) built with the real builder node classes, compared with a recursive reference stream",
+    text="text(): every Unicode string of <= 3/4 characters splits into at most SpaceCharacters, Characters, SpaceCharacters with the documented shape (solver-closed). Walkers: for EVERY tree shape with <= 3 nodes under a document (doctype + comment + root element), a fragment or a root element - 5 element name/namespace choices incl. a void name, the same name in SVG, no namespace and a colon name, 2 texts, comment; 6 attribute sets - "
+         "started at the container or at ANY element of the tree, with namespacing on and off: the etree and dom walkers' streams equal the reference stream (balance, void elements as EmptyTag and never EndTag, names, text splitting, rebuilds the tree), the lint filter accepts them, and both walkers agree after merging character tokens.",
+    note="Tree shapes bounded by 3 nodes (path forking over a finite shape space, run concretely after the fork); reference stream R7 trusted; lxml/genshi walkers not installed. " + NOTE_COMMON,
+    design="§3 C11"),
+ "C19": dict(
+    technique="bounded symbolic execution (CrossHair/z3): real to_sax on the real walkers over symbolically shaped trees (shape, kinds, names, attribute sets by symbolic index), events compared with the reference stream",
+    text="For every tree shape with <= 3 nodes (as C11; document / fragment / root element; etree and dom walker; 6 attribute sets incl. xlink:href, xmlns:xlink, xmlns, a colon name) the recorded SAX events have exactly one startDocument/endDocument pair, the prefix mappings of adjustForeignAttributes started before and ended after all content, "
+         "and the element/character events equal the tree (comments and doctype omitted) with attributes' values and qualified names as derived from unadjustForeignAttributes.",
+    note="Recorder handler; trees bounded by 3 nodes; reference derived independently from constants.adjustForeignAttributes. " + NOTE_COMMON,
+    design="§3 C19"),
  "C02": dict(
     technique="bounded symbolic execution (CrossHair/z3) of the real tokenizer state methods from catalogue pre-states on a symbolic continuation of arbitrary Unicode characters, differentially against an independent transcription of the WHATWG tokenizer (R1)",
     text="For every state method of the live HTMLTokenizer class (catalogue rebuilt from /repo at check time: 119 pre-states over 7 configurations = 5 start states x last start tag x CDATA allowed/not) the real tokenizer is run from that pre-state on EVERY string of <= 2 (quick) / 3 (thorough) Unicode characters followed by end of input, "
